@@ -9,7 +9,7 @@ ids=${@:-C01 C02 C03 C04 C05 C06 C07 C08 C09 C10 C11 C12 C13 C14 C15 C16 C17 C18
 python3 tools/check.py --setup
 for seed in $(seq $a $b); do
   for id in $ids; do
-    out=$(VERIF_SEED=$seed nice -n 15 python3 tools/check.py $id --tier quick 2>&1); rc=$?
+    out=$(VERIF_SEED=$seed nice -n 15 python3 tools/check.py $id --tier ${TIER:-quick} 2>&1); rc=$?
     if [ $rc -ne 0 ]; then echo "SEED $seed $id rc=$rc"; echo "$out" | grep -E "violation|VIOLATION|check.py" | head -5; else echo "seed $seed $id ok: $(echo "$out" | grep '^OK' | cut -c1-100)"; fi
   done
 done
